@@ -29,6 +29,10 @@ static BusActivation A; static BusPendingActivation *g_pending;     /* ghost map
 static DBusList links[VERIF_N]; static BusPendingActivationEntry ent[VERIF_N]; static char conns[VERIF_N], msgs[VERIF_N]; static unsigned n_ent;
 static _Bool connected[VERIF_N];
 static int idx_of_msg (DBusMessage *m) { for (int i = 0; i < VERIF_N; i++) if (m == (DBusMessage *)&msgs[i]) return i; return -1; }
+/* attributes of the held messages: arbitrary (a held message may be any method call or signal, with or without NO_REPLY_EXPECTED) */
+static int g_msg_type[VERIF_N]; static _Bool g_msg_no_reply[VERIF_N];
+int dbus_message_get_type (DBusMessage *m) { int k = idx_of_msg (m); PRE(k >= 0, "dbus_message_get_type: a held message"); __CPROVER_assume(k >= 0 && k < VERIF_N); return g_msg_type[k]; }
+dbus_bool_t dbus_message_get_no_reply (DBusMessage *m) { int k = idx_of_msg (m); PRE(k >= 0, "dbus_message_get_no_reply: a held message"); __CPROVER_assume(k >= 0 && k < VERIF_N); return g_msg_no_reply[k]; }
 dbus_bool_t dbus_connection_get_is_connected (DBusConnection *c) { for (int i = 0; i < VERIF_N; i++) if (c == (DBusConnection *)&conns[i]) return connected[i]; PRE(0, "dbus_connection_get_is_connected: a waiter's connection"); return 0; }
 void *_dbus_hash_table_lookup_string (DBusHashTable *table, const char *key) { PRE(table == (DBusHashTable *)&o_table && key == g_name, "_dbus_hash_table_lookup_string: pending activations by the service's name"); return g_map_has ? g_pending : NULL; }
 /* removal drops the table's reference (value free function = bus_pending_activation_unref, real code) */
@@ -117,6 +121,7 @@ static void build (void)
       ent[i].activation_message = (DBusMessage *)&msgs[i]; ent[i].connection = nondet_bool() ? (DBusConnection *)&conns[i] : NULL; ent[i].auto_activation = nondet_bool();
       __CPROVER_assume(ent[i].connection != NULL || ent[i].auto_activation);   /* struct comment: connection NULL => bus-originated, always auto */
       connected[i] = nondet_bool(); Q.dispatch_fails[i] = nondet_bool(); Q.dispatch_oom[i] = nondet_bool();
+      g_msg_type[i] = nondet_bool() ? DBUS_MESSAGE_TYPE_METHOD_CALL : DBUS_MESSAGE_TYPE_SIGNAL; g_msg_no_reply[i] = nondet_bool();
 #ifndef VERIF_NULLCONN_MAY_FAIL
       /* ASSUMPTION of the green unit: dispatching a bus-originated held message (connection == NULL, the
        * systemd ActivationRequest) does not fail.  Without it the unchanged tree fails (unit ..._nullconn). */
